@@ -4,11 +4,13 @@
 (* property selects the actions through Acts.                               *)
 EXTENDS Nurbs
 
-CONSTANTS Breaks, Degs, MaxNpts, Acts, PtKinds, WtKinds, ExtraNodes, NodeSize
+CONSTANTS Breaks, Degs, MaxNpts, Acts, PtKinds, WtKinds, ExtraNodes, NodeSize,
+          Scenario, PrepDepth, OtherDegs, OtherMaxNpts
 
 AllKV == KVs(Breaks, Degs, MaxNpts)
 
 Pts(n) == (IF "gen" \in PtKinds THEN {Gen1(n), Gen2(n)} ELSE {})
+          \cup (IF "pos" \in PtKinds THEN {[i \in 1..n |-> R(1 + ((i * 3) % 4))]} ELSE {})
           \cup (IF "unit" \in PtKinds THEN {Unit(n, k) : k \in 1..n} ELSE {})
 Wts(n) == (IF "none" \in WtKinds THEN {<<>>} ELSE {})
           \cup (IF "const" \in WtKinds THEN {Const(n, Two)} ELSE {})
@@ -22,12 +24,41 @@ MCInit == IF Acts = {"FnBasis"} THEN {[a |-> KvObj(U)] : U \in AllKV}
 CutTo(s, n) == [i \in 1..n |-> s[i]]
 MCInit2 ==
   IF Acts = {"FnBasis"} THEN {[a |-> KvObj(U)] : U \in AllKV}
-  ELSE UNION {{[a |-> CvObj(Curve(U, P, W))] : P \in Pts(Npts(U)), W \in Wts(Npts(U))} : U \in AllKV}
+  ELSE UNION {{[a |-> CvObj(Curve(U, P, W)), b |-> NoObj] : P \in Pts(Npts(U)), W \in Wts(Npts(U))} : U \in AllKV}
 
 NodePool(U) == KnotSet(U) \cup Midpoints(U) \cup Outside(U) \cup {x \in ExtraNodes : Valid(U, x)}
 EvalGrid(U) == ParamGrid(U, Deg(U) + 1)
 
-MCArgs(name, h) ==
+Tols == {<<"default">>, <<"none">>, <<"q", 1, 2>>}
+InteriorSet(U) == KnotSet(U) \ {Umin(U), Umax(U)}
+
+(* other operands for binary operations: curves of the universe on the same interval *)
+OtherKVs == KVs(Breaks, OtherDegs, OtherMaxNpts)
+PosPts(n) == [i \in 1..n |-> R(1 + ((i * 3) % 4))]                 \* 4,3,2,1,4,.. : positive, no zero
+Others(kinds) ==
+  UNION {{Curve(V, P, W) : P \in (IF "pos" \in kinds THEN {PosPts(Npts(V))} ELSE {Gen2(Npts(V)), PosPts(Npts(V))}),
+                           W \in (IF "rational" \in kinds THEN {<<>>, WGen2(Npts(V))} ELSE {<<>>})} : V \in OtherKVs}
+
+(* a curve starting where A ends *)
+ShiftTo(c, x) == LET s == Sub(x, Umin(c.U)) IN [c EXCEPT !.U = ShiftKV(c.U, s).kv]
+JoinOthers(A) ==
+  LET base == {Curve(V, Gen2(Npts(V)), <<>>) : V \in OtherKVs}
+      disc == {ShiftTo(c, Umax(A.U)) : c \in base}
+      cont == {[c EXCEPT !.P[1] = A.P[Len(A.P)]] : c \in disc}
+  IN disc \cup cont \cup {ShiftTo(CHOOSE c \in base : TRUE, Add(Umax(A.U), One))}
+
+EqOthers(A) ==
+  LET U == A.U n == Npts(U)
+      refs == {Refine(A, V) : V \in {W \in {SortedUnion(SetDegreeKV(U, Deg(U) + t).kv, ex) :
+                                                t \in 0..1, ex \in MultisetsUpTo(Midpoints(U) \cup InteriorSet(U), 1)} :
+                                         IsKnotVector(W) /\ Refines(W, U)}}
+      pert == {[A EXCEPT !.P[k] = Add(@, Q(1, 100))] : k \in {1, n}}
+      ratl == IF A.W = <<>> THEN {Curve(U, A.P, Const(n, Two)), Curve(U, A.P, WGen1(n))}
+              ELSE {Curve(U, A.P, [i \in 1..n |-> Mul(A.W[i], R(3))]), Curve(U, A.P, <<>>)}
+      far  == {[A EXCEPT !.U = ShiftKV(U, One).kv]}
+  IN refs \cup pert \cup ratl \cup far \cup {[r EXCEPT !.P[1] = Add(@, One)] : r \in refs}
+
+MCArgs(name, h, dep) ==
   IF name \notin Acts THEN {} ELSE
   LET U == h["a"].U IN
   CASE name = "CvEval" ->
@@ -40,19 +71,60 @@ MCArgs(name, h) ==
          {[obj |-> "a", weights |-> W, j |-> j, u |-> u] :
              W \in Wts(Npts(U)), j \in 0..Deg(U), u \in EvalGrid(U)}
     [] name = "CvKnotInsert" ->
-         {[obj |-> "a", nodes |-> n] : n \in MultisetsUpTo(NodePool(U), NodeSize)}
-         \cup {[obj |-> "a", nodes |-> <<Umin(U), Umax(U)>>]}
-         \cup {[obj |-> "a", nodes |-> <<x, y>>] : x, y \in {z \in Midpoints(U) : TRUE}}
+         IF Scenario = "single" THEN
+           {[obj |-> "a", nodes |-> n] : n \in MultisetsUpTo(NodePool(U), NodeSize)}
+           \cup {[obj |-> "a", nodes |-> <<Umin(U), Umax(U)>>]}
+           \cup {[obj |-> "a", nodes |-> <<x, y>>] : x, y \in {z \in Midpoints(U) : TRUE}}
+         ELSE IF dep < PrepDepth THEN
+           {[obj |-> "a", nodes |-> n] :
+               n \in {m \in MultisetsUpTo(Midpoints(U) \cup InteriorSet(U), NodeSize) \ {<<>>} : InsertGuard(U, m)}}
+         ELSE {}
     [] name = "CvDegreeIncrease" ->
-         {[obj |-> "a", times |-> t, form |-> f] : t \in 1..2, f \in {"method", "setter"}}
+         IF Scenario = "single" \/ dep < PrepDepth
+         THEN {[obj |-> "a", times |-> t, form |-> f] : t \in 1..2, f \in {"method", "setter"}}
+         ELSE {}
     [] name = "CvSplit" ->
          {[obj |-> "a", nodes |-> n, form |-> "nodes"] : n \in SeqsUpTo(NodePool(U), NodeSize)}
          \cup {[obj |-> "a", nodes |-> Knots(U), form |-> "noarg"]}
+    [] name = "CvKnotRemove" ->
+         {[obj |-> "a", nodes |-> n, tol |-> <<"default">>] :
+             n \in MultisetsUpTo(InteriorSet(U), NodeSize) \ {<<>>}}
+         \cup {[obj |-> "a", nodes |-> <<x>>, tol |-> t] : x \in InteriorSet(U), t \in Tols \ {<<"default">>}}
+         \cup {[obj |-> "a", nodes |-> n, tol |-> <<"default">>] : n \in {<<Q(5, 7)>>, <<Umin(U)>>, <<Umax(U)>>}}
+    [] name = "CvDegreeDecrease" ->
+         {[obj |-> "a", times |-> t, tol |-> <<"default">>, form |-> f] : t \in 1..2, f \in {"method", "setter"}}
+         \cup {[obj |-> "a", times |-> 1, tol |-> t, form |-> "method"] : t \in Tols \ {<<"default">>}}
+    [] name = "CvClean" ->
+         {[obj |-> "a", which |-> w] : w \in {"knot", "degree", "all"}}
+    [] name = "CvSplitTake" ->
+         IF dep = 0 THEN
+           {[obj |-> "a", nodes |-> <<x>>, i |-> 1] : x \in (Midpoints(U) \cup InteriorSet(U) \cup {y \in ExtraNodes : Lt(Umin(U), y) /\ Lt(y, Umax(U))})}
+           \cup {[obj |-> "a", nodes |-> <<x, y>>, i |-> i] : x \in Midpoints(U), y \in InteriorSet(U), i \in 1..2}
+         ELSE {}
+    [] name = "CvJoin" ->
+         IF h["b"].kind = "cv" THEN {[obj |-> "a", other |-> AsCurve(h["b"])]}
+         ELSE {[obj |-> "a", other |-> B] : B \in JoinOthers(AsCurve(h["a"]))}
+    [] name = "CvArith" ->
+         {[obj |-> "a", other |-> B, op |-> o] : B \in Others({}), o \in {"add", "sub", "mul"}}
+         \cup {[obj |-> "a", other |-> B, op |-> "div"] : B \in Others({"pos"})}
+         \cup {[obj |-> "a", other |-> ShiftTo(CHOOSE B \in Others({"pos"}) : TRUE, Add(Umin(U), One)), op |-> o] :
+                   o \in {"add", "sub", "mul", "div"}}
+    [] name = "CvScalar" ->
+         {[obj |-> "a", op |-> o, s |-> x] : o \in {"s+A", "A+s", "s-A", "A-s", "s*A", "A*s", "A/s"}, x \in {R(3), Q(-1, 2)}}
+         \cup {[obj |-> "a", op |-> "neg", s |-> Zero]}
+         \cup (IF \A i \in DOMAIN h["a"].P : Sign(h["a"].P[i]) > 0
+               THEN {[obj |-> "a", op |-> "s/A", s |-> x] : x \in {R(3), One, Q(-1, 2)}} ELSE {})
+    [] name = "CvEq" ->
+         {[obj |-> "a", other |-> B] : B \in EqOthers(AsCurve(h["a"]))}
+         \cup {[obj |-> "a", other |-> NotCurve], [obj |-> "a", other |-> AsCurve(h["a"])]}
+    [] name = "CvCopy" -> {[obj |-> "a"]}
+    [] name = "CvFraction" -> {[obj |-> "a"]}
     [] OTHER -> {}
 
 BreaksQ == <<R(-1), R(0), R(2), R(3)>>
 BreaksT == <<R(0), Half, R(2), R(3)>>
 DegsQ == 0..2
 DegsT == 0..3
+Degs4 == 0..4
 Extra0 == {Zero, One}
 =============================================================================
